@@ -56,7 +56,7 @@ static bool seq_parse(const std::string& txt, Seq& s) {
 
 // ---------------------------------------------------------------------------------------------
 struct Verdict { bool failed = false; std::string sig, msg; uint64_t features = 0; };
-enum : uint64_t { FT_DEL_INS = 1, FT_CLEAR_INS = 2, FT_BIG = 4, FT_COPY_NONEMPTY = 8, FT_ODDCOLS = 16, FT_SOLVE_FULL = 32, FT_SOLVE_DEF = 64, FT_SOLVE_SWAP = 128, FT_HUGE = 256, FT_TALL = 512 };
+enum : uint64_t { FT_DEL_INS = 1, FT_CLEAR_INS = 2, FT_BIG = 4, FT_COPY_NONEMPTY = 8, FT_ODDCOLS = 16, FT_SOLVE_FULL = 32, FT_SOLVE_DEF = 64, FT_SOLVE_SWAP = 128, FT_HUGE = 256, FT_TALL = 512, FT_TALLDENSE = 1024 };
 
 struct Interp {
   static const int NS = 4;
@@ -136,9 +136,24 @@ struct Interp {
     DN& d = dn[i];
     if (!d.d || v.failed) return;
     if (shp_dn_rows(d.d) != d.rows || shp_dn_cols(d.d) != d.cols) { fail("DENSE/dimensions_changed", std::string("after ") + after); return; }
-    for (uint32_t r = 0; r < d.rows; r++) for (uint32_t c = 0; c < d.cols; c++)
-      if ((shp_dn_get(d.d, r, c) != 0) != (d.model[r][c] != 0)) { fail("DENSE/cell_differs", std::string("after ") + after + ": get(" + std::to_string(r) + "," + std::to_string(c) + ") = " + std::to_string(shp_dn_get(d.d, r, c)) + ", model says " + std::to_string((int)d.model[r][c]) + " (" + std::to_string(d.rows) + "x" + std::to_string(d.cols) + ")"); return; }
+    auto row_ok = [&](uint32_t r) {
+      for (uint32_t c = 0; c < d.cols; c++)
+        if ((shp_dn_get(d.d, r, c) != 0) != (d.model[r][c] != 0)) { fail("DENSE/cell_differs", std::string("after ") + after + ": get(" + std::to_string(r) + "," + std::to_string(c) + ") = " + std::to_string(shp_dn_get(d.d, r, c)) + ", model says " + std::to_string((int)d.model[r][c]) + " (" + std::to_string(d.rows) + "x" + std::to_string(d.cols) + ")"); return false; }
+      return true;
+    };
+    if (d.rows <= 4096) { for (uint32_t r = 0; r < d.rows; r++) if (!row_ok(r)) return; }
+    else {
+      // tall matrix: rows around the ends and around 2^15 / 2^16, the rows touched by the last operations, and a seeded sample
+      std::vector<uint32_t> rs;
+      for (uint32_t t = 0; t < 24; t++) { rs.push_back(t); rs.push_back(d.rows - 1 - t); }
+      for (uint32_t b : {32768u, 65536u}) for (int t = -3; t <= 3; t++) if ((int64_t)b + t >= 0 && b + t < d.rows) rs.push_back(b + t);
+      for (uint32_t r : touched) if (r < d.rows) rs.push_back(r);
+      uint64_t x = d.rows * 31ull + d.cols + (uint64_t)touched.size();
+      for (int t = 0; t < 120; t++) rs.push_back((uint32_t)(splitmix(x) % d.rows));
+      for (uint32_t r : rs) if (!row_ok(r)) return;
+    }
   }
+  std::vector<uint32_t> touched;   // rows written by recent operations on tall dense matrices
   static uint32_t dense_cols_choice(uint32_t x) { static const uint32_t em[] = {31, 32, 33, 63, 64, 65, 96, 97, 1, 2, 7, 100, 127, 128, 129, 130}; return (x % 3 == 0) ? 1 + (x / 3) % 130 : em[(x / 3) % 16]; }
 
   // ---- solver
@@ -361,11 +376,19 @@ struct Interp {
       } break;
       case S_FREE: sp_free(i); break;
 
-      case D_ALLOC: dn_alloc(i, 1 + op.b % 70, dense_cols_choice(op.c)); break;
+      case D_ALLOC: {
+        uint32_t r = 1 + op.b % 70, c = dense_cols_choice(op.c);
+        if (op.d % 64 == 5) {   // tall: row indices beyond 16 bits
+          static const uint32_t tr[4] = {65535, 65536, 65537, 70001};
+          r = tr[(op.d / 64) % 4]; c = 1 + op.c % 40; v.features |= FT_TALLDENSE;
+        }
+        dn_alloc(i, r, c);
+      } break;
       case D_SET: case D_GET: case D_FLIP: {
         DN& d = dn[i]; if (!d.d) return;
         uint32_t r = op.b % d.rows, c = op.c % d.cols;
         if (op.d & 2) c = d.cols - 1 - (op.c % std::min<uint32_t>(d.cols, 3));  // last columns: word boundaries
+        if (d.rows > 4096) { if (op.d & 4) r = d.rows - 1 - op.b % 8; else if (op.d & 8) r = 65532 + op.b % 8; if (r >= d.rows) r = d.rows - 1; touched.push_back(r); if (touched.size() > 64) touched.erase(touched.begin()); }
         if (op.kind == D_SET) { if (shp_dn_set(d.d, r, c, op.d & 1) != 0) fail("DENSE/set_refused", "set in range returned an error"); d.model[r][c] = op.d & 1; }
         else if (op.kind == D_GET) { if ((shp_dn_get(d.d, r, c) != 0) != (d.model[r][c] != 0)) fail("DENSE/cell_differs", "get disagrees with the model"); }
         else { uint32_t b = shp_dn_flip(d.d, r, c); d.model[r][c] ^= 1; if (b != d.model[r][c]) fail("DENSE/flip_return_wrong", "flip returned " + std::to_string(b)); }
@@ -393,7 +416,7 @@ struct Interp {
           for (uint32_t r = 0; r < dst.rows; r++) for (uint32_t c = 0; c < dst.cols; c++) dst.model[r][c] = s.model[r][cols[c]];
         }
       } break;
-      case D_XOR: { DN& d = dn[i]; if (!d.d) return; uint32_t f = op.b % d.rows, t = op.c % d.rows; shp_dn_xor_rows(d.d, f, t); if (f != t) for (uint32_t c = 0; c < d.cols; c++) d.model[t][c] ^= d.model[f][c]; else for (uint32_t c = 0; c < d.cols; c++) d.model[t][c] = 0; } break;
+      case D_XOR: { DN& d = dn[i]; if (!d.d) return; uint32_t lim = std::min<uint32_t>(d.rows, 65536); /* the function takes 16-bit row numbers */ uint32_t f = op.b % lim, t = op.c % lim; if (d.rows > 4096) { if (op.d & 1) t = lim - 1 - op.c % 4; touched.push_back(t); if (touched.size() > 64) touched.erase(touched.begin()); } shp_dn_xor_rows(d.d, f, t); if (f != t) for (uint32_t c = 0; c < d.cols; c++) d.model[t][c] ^= d.model[f][c]; else for (uint32_t c = 0; c < d.cols; c++) d.model[t][c] = 0; } break;
       case D_WEIGHTS: {
         DN& d = dn[i]; if (!d.d) return;
         for (uint32_t r = 0; r < d.rows && !v.failed; r++) {
@@ -455,15 +478,15 @@ static Seq generate(const std::string& prop, Chooser& ch, bool thorough) {
 static Stats st;
 static bool nontrivial(const std::string& prop, uint64_t f) {
   if (prop == "C17") return (f & (FT_DEL_INS | FT_CLEAR_INS | FT_BIG | FT_COPY_NONEMPTY | FT_HUGE)) != 0;
-  return (f & (FT_ODDCOLS | FT_SOLVE_SWAP | FT_SOLVE_DEF)) != 0;
+  return (f & (FT_ODDCOLS | FT_SOLVE_SWAP | FT_SOLVE_DEF | FT_TALLDENSE)) != 0;
 }
 static Verdict run_one(const std::string& prop, const Seq& s, bool count) {
   Interp in; in.prop = prop;
   Verdict v = in.run(s);
   if (count) {
     st.evaluations++;
-    static const char* fn[] = {"delete_then_insert", "clear_then_insert", ">1024_entries", "copy_into_nonempty", "cols_not_multiple_of_32", "solve_full_rank", "solve_rank_deficient", "solve_needs_row_swap", "dimensions_around_2^16", "solve_tall_system"};
-    for (int b = 0; b < 10; b++) if (v.features & (1ull << b)) st.feature_counts[fn[b]]++;
+    static const char* fn[] = {"delete_then_insert", "clear_then_insert", ">1024_entries", "copy_into_nonempty", "cols_not_multiple_of_32", "solve_full_rank", "solve_rank_deficient", "solve_needs_row_swap", "dimensions_around_2^16", "solve_tall_system", "dense_rows_beyond_16_bits"};
+    for (int b = 0; b < 11; b++) if (v.features & (1ull << b)) st.feature_counts[fn[b]]++;
     st.classes[!s.empty() && s[0].kind == X_SOLVE ? (s.size() == 1 ? "solver" : "solver_sequence") : (prop == "C17" ? "sparse_sequence" : "dense_sequence")]++;
     if (nontrivial(prop, v.features)) { st.nontrivial++; std::string t = seq_text(s); if (st.distinct.insert(hash_text(t)).second && st.samples.size() < 5 && st.distinct.size() % 211 == 1) st.samples.push_back(t.size() > 1500 ? t.substr(0, 1500) + "..." : t); }
   }
@@ -556,7 +579,7 @@ int main(int argc, char** argv) {
   st.rule = prop == "C17"
     ? "generated sequences (<= 60 operations, 120 thorough) over a pool of 4 sparse matrices (1..40 x 1..40, plus 1x2000 / 2000x1): allocate, insert (new / existing), find, delete, bulk insert (up to 1600 entries: crosses the 1024-entry block), bulk delete, clear, copy, copyrows, copycols, the _opt variants and copy_filled_matrix into fresh destinations, sparse->dense, dense->sparse, emptiness/weight queries, free; after every operation every live matrix is traversed by rows and by columns, links are checked and find is compared with the set model; non-trivial = delete->insert, clear->insert, > 1024 live entries, or copy into a non-empty destination; distinct = distinct operation sequence text"
     : "generated sequences over a pool of 4 dense matrices (1..70 rows, column counts emphasising 31,32,33,63,64,65,96,97): set/get/flip, clear, fill, copy, copyrows, copycols (equal row counts), xor_rows, weights (row, column, emptiness, ignore_first at multiples of 32), free, compared cell by cell with a plain bit-matrix model after every operation; solver cases: p x q systems (q 1..70, p-q 0..10; one case in 24 is tall: q 1..8 and p around 2^15 or 2^16 rows) of constructed rank (full: random row operations on [I;0]; deficient: dependent / zero column / duplicated row), random symbols of 1..40 bytes, rhs = A x, 1-3 solves per case on a fresh or on one reused control block, earlier solutions optionally retained and re-checked; popcount helpers over all 16-bit patterns in every 16-bit position, structured words (all-ones, alternating, one bit clear) and random words; non-trivial = column count not a multiple of 32, or solver needing a row swap, or rank-deficient system; distinct = distinct sequence text";
-  Seq fseq;
+  Seq fseq, first_seq; std::string first_sig, first_msg;   // first_*: the failing sequence as first found, before in-process shrinking
   if (prop == "C18" && worker == 0) { popcounts(failed, fsig, fmsg, frp); st.classes["popcount"] += 1; }
   uint64_t shrink_execs = 0;
   if (!failed)
@@ -566,11 +589,12 @@ int main(int argc, char** argv) {
       Seq s = generate(prop, ch, thorough);
       cur.put(seq_text(s));
       Verdict v = run_one(prop, s, true);
-      if (v.failed) { failed = true; fsig = v.sig; fmsg = v.msg; fseq = s; RC_FAIL(v.sig + " :: " + v.msg); }
+      if (v.failed) { if (!failed) { first_seq = s; first_sig = v.sig; first_msg = v.msg; } failed = true; fsig = v.sig; fmsg = v.msg; fseq = s; RC_FAIL(v.sig + " :: " + v.msg); }
     });
   cur.clear();
   if (failed) {
     if (!failout.empty() && !fseq.empty()) write_file(failout, "# property " + prop + "\n# signature " + fsig + "\n# " + fmsg + "\n" + seq_text(fseq));
+    if (!failout.empty() && !first_seq.empty()) write_file(failout + ".orig", "# property " + prop + "\n# signature " + first_sig + "\n# " + first_msg + "\n" + seq_text(first_seq));
     if (!out.empty()) write_stats(out, prop, st, true, fsig, fmsg, failout);
     if (!fseq.empty()) { fseq = minimise(prop, fseq, fsig); Verdict v = run_one(prop, fseq, false); if (v.failed) fmsg = v.msg; frp = seq_text(fseq); }
     if (!failout.empty()) write_file(failout, "# property " + prop + "\n# signature " + fsig + "\n# " + fmsg + "\n" + frp);
